@@ -63,7 +63,7 @@ def run():
               "(model layer, drift). distinct_nontrivial = round trips + re-saves judged (TLC registers).")
     c.assumptions = ["the foreground/blink of a glyph without set pixels and the background of a glyph without clear pixels are not 'displayed colours'",
                      "an embedded font that no cell uses is not part of the picture (re-save half)",
-                     "re-save cases whose save or second load fails are not judged (counted in resaves_not_judged_save_or_reload_failed)",
+                     "re-save cases whose save or second load fails, or whose first load has a non-positive size (a mutated Tundra position record can produce a negative height), are not judged (counted in resaves_not_judged_save_or_reload_failed)",
                      "fonts are compared by size + CRC-32 of the glyph table (and byte-wise for small cases)",
                      "the projection (Buffer::get_char, Palette::get_rgb, BitFont::convert_to_u8_data) is trusted"]
     return c.finish()
